@@ -1,6 +1,6 @@
 (** C08 - The verdict does not depend on the Go representation of the instance. *)
 From Coq Require Import List NArith ZArith QArith Bool.
-From JS Require Import Str Lit Json Res GoValue Equal EqualFacts Hash Schema Env Ann Validate Spec RefineBase Refine Corollaries.
+From JS Require Import Str Lit Json Res GoValue Equal EqualFacts Hash Schema Env Ann Validate Spec RefineBase Refine Corollaries SpecPerm OrderFree.
 Import ListNotations.
 
 Theorem C08_representation : forall re_match hash n e g1 g2 b,
@@ -10,6 +10,17 @@ Theorem C08_representation : forall re_match hash n e g1 g2 b,
   Validate re_match hash n e g1 = Validate re_match hash n e g2.
 Proof. exact Validate_representation. Qed.
 Print Assumptions C08_representation.
+
+(** more generally the verdict only depends on the instance as a JSON value: representations
+    whose denotations are JSON-equal (numbers as rationals, objects as unordered sets of
+    members) get the same verdict *)
+Theorem C08_json_value : forall re_match hash n e g g' b,
+  gv_wf g = true -> gv_wf g' = true -> jeq (den g) (den g') ->
+  isValidSchemaVersion (e_version e) = true ->
+  spec_valid re_match n e (den g) = Some b ->
+  Validate re_match hash n e g = Validate re_match hash n e g'.
+Proof. exact Validate_json_value. Qed.
+Print Assumptions C08_json_value.
 
 (** every representation gets the verdict of the canonical encoding/json decoding *)
 Theorem C08_canonical : forall re_match hash n e g b,
